@@ -88,6 +88,7 @@ def long_line_errors(out, L):
             rest = rest[:-1]
         rest = re.sub(r'<[^>\n]*>', lambda m: 'x' * len(m.group(0)), rest)
         rest = re.sub(r'(?<=`) +| +(?=`)', '', rest)          # code span padding is glued by design
+        rest = re.sub(r'(?<!\\)((?:\\\\)*\\) +', r'\1x', rest)   # breaking after a backslash would write a hard line break
         if re.fullmatch(r'(=+|-+)', rest):
             continue                                           # setext underline
         if ' ' in rest:
@@ -191,6 +192,8 @@ CURATED = [
     ("# A long ATX heading that must stay on one line\n\n```\ncode that is long and must stay\n```\n\n| a long | table row |\n|---|---|\n", 10),
     ("> - quoted *list item* with `inline code` and a [link](/url 't') to wrap\n", 12),
     ("Setext heading with several words\n===\n\n    indented code stays\n", 8),
+    # a backslash before a space is a literal backslash: no line may end there (F78)
+    ("a\\ b c and d:\\ e\\\\ f\n\n> - path c:\\ or d:\\ `x\\ y` end\n", 6),
 ]
 
 
